@@ -865,12 +865,25 @@ def run_generated(ctx, fmt, idx, scale, tmp, via_load_score=False, ext=None):
         two, rhythmic, tie, evs = _features(A)
         try:
             if via_load_score:
-                ok, _ = ctx.try_call(IO.load_score, path)
+                ok, loaded_ = ctx.try_call(IO.load_score, path)
             else:
-                ok, _ = ctx.try_call(IM.load_mei if fmt == "mei" else IK.load_kern, path)
+                ok, loaded_ = ctx.try_call(IM.load_mei if fmt == "mei" else IK.load_kern, path)
             if ok:
                 if not exp["checked"]:
                     raise RuntimeError("reader hook did not check the registered document")
+                if fmt == "kern" and not via_load_score and len(loaded_.parts) == 1 and not any(exp["rational"].values()) and rng.random() < 0.5:
+                    # what the reader returned is a part like any other: it survives export and loading again
+                    # (the hook on save_kern reloads the written file and compares it with the part)
+                    import partitura.io.exportkern as EK_
+                    path2 = os.path.join(tmp, f"re{idx}_{j}.krn")
+                    EXPECT[os.path.abspath(path2)] = {"meta": {"from_kern_document": True, "seed_path": ["kern", str(idx), j]}}
+                    try:
+                        ctx.try_call(EK_.save_kern, loaded_.parts[0], path2)
+                        ctx.extra["kern_documents_exported_again"] += 1
+                    finally:
+                        EXPECT.pop(os.path.abspath(path2), None)
+                        if os.path.exists(path2):
+                            os.unlink(path2)
             else:
                 # attach the document to the raise just recorded
                 v = ctx.violations[-1] if ctx.violations else None
